@@ -179,8 +179,7 @@ class TotalProgress(Target):
     max_paths = 400000
     float_sensitive = True
     assumptions = ["number of stages n <= NMAX (BOUNDED in n)",
-                   "active stages and finished stages are disjoint (both lists are computed from node_is_active inside one "
-                   "comp_lock scope: a stage is in transit iff it has an active node, finished iff it has none)",
+                   "active stages and finished stages are disjoint (proved below on get_stages_in_transit / get_stages_finished)",
                    "per-stage progress values lie in [0,1] (Controller.get_stage_status, proved below; status programs trusted)"]
 
     def setup(self, c):
@@ -327,5 +326,59 @@ class DoubleRoundTrip(Lemma):
         return [('int-of-k-over-1000-times-1000', ok)]
 
 
-TARGETS = [InjectWeights(), MonitorWeights(), TotalProgress(), StageStatus()]
+class StageSets(Target):
+    """The total sums `progress*weight` over the stages in transit and `weight` over the finished stages: it stays a
+    proper fraction only if no stage is in BOTH sets.  Controller.get_stages_in_transit and get_stages_finished (real
+    source, run on the same controller state) never report a stage twice, whatever has been observed as done and whatever
+    the components' states are -- including a component that reached a final state but whose finishedCheck is pending."""
+    prop = 'C20'
+    name = 'Controller.get_stages_in_transit/get_stages_finished'
+    file = 'python/experiment/runtime/control.py'
+    qualname = 'Controller.get_stages_in_transit'
+    inline_class = {'this': ('python/experiment/runtime/control.py', 'Controller')}
+    compare_return = False
+    set_iter = 'sorted-repr'        # sorted(<set of stage indices>): the order of the set does not reach the result
+    trusted = ["networkx nodes view (real library on a concrete graph)", "StageState.runningComponents lists the components "
+               "whose state is not final"]
+    assumptions = ["2 stages x 2 components; every combination of 'observed as done' and 'state is final' with done => final"]
+
+    def setup(self, c):
+        import networkx
+        import threading
+        import experiment.model.codes as codes
+        g = networkx.DiGraph()
+        done = set()
+        stage_states = {}
+        comps = {}
+        for sidx in (0, 1):
+            running = []
+            for k in (0, 1):
+                name = 'stage%d.c%d' % (sidx, k)
+                g.add_node(name, stageIndex=sidx)
+                status = c.one_of('%s' % name, ['running', 'final-not-yet-observed', 'done'])
+                if status == 'done':
+                    done.add(name)
+                state = codes.RUNNING_STATE if status == 'running' else codes.FINISHED_STATE
+                comp = Obj('ComponentState:' + name, stageIndex=sidx, state=state)
+                comps[name] = comp
+                if status == 'running':
+                    running.append(comp)
+            stage_states[sidx] = Obj('StageState%d' % sidx, runningComponents=list(running), index=sidx)
+        this = Obj('controller', comp_lock=threading.RLock(), graph=g, comp_done=done, _stageStates=stage_states, log=NULLLOG,
+                   get_compstate=Extern('get_compstate', lambda c, n: comps[n]))
+        return State(args=[this], this=this)
+
+    def ensures(self, c, st, out):
+        if out.kind == 'raise':
+            return [('no-exception', False)]
+        transit = list(out.value)
+        finished = list(st.this.get_stages_finished())           # the other REAL method, on the same state
+        return [('no-stage-is-both-in-transit-and-finished', not (set(transit) & set(finished))),
+                ('every-stage-is-in-transit-or-finished', set(transit) | set(finished) == {0, 1})]
+
+    def cross_compare(self, *a):
+        return []
+
+
+TARGETS = [InjectWeights(), MonitorWeights(), TotalProgress(), StageStatus(), StageSets()]
 LEMMAS = [FallbackArithmetic(), DoubleRoundTrip()]
